@@ -16,3 +16,6 @@ pub use grammar::{
 };
 pub use parser::{BiasComputer, Parser, ParserError, ParserMetrics, ParserRecognizer, ParserStats};
 pub use slicer::SlicedBiasComputer;
+
+#[cfg(feature = "llg_verif")]
+pub use parser::VerifState;
